@@ -545,6 +545,20 @@ theorem stepEv_err {T : Tables} {A A' : Abs} {cx : Ctx} {opt : Bool} {c c' : Cfg
     · rename_i hn; exact absurd hn this
     · cases hs
     · cases hs
+  | changedAttr =>
+    simp only [absEv] at ha
+    split at ha <;> cases ha
+    rename_i hc
+    simp only [Bool.and_eq_true, beq_iff_eq] at hc
+    have h1 := h.chg hc.1
+    have hb := h.bk
+    rw [hc.2] at hb
+    obtain ⟨bk, hb⟩ := hb
+    simp only [stepEv, hb] at hs
+    split at hs
+    · rename_i hn; exact absurd hn h1
+    · cases hs
+    · cases hs
   | changedNone => simp [stepEv] at hs
   | changedRead =>
     simp only [absEv] at ha
@@ -743,6 +757,7 @@ theorem abort_interp {T : Tables} {cx : Ctx} (bk : Core) :
     | readC k => simp [he] at hs
     | changedAdd => simp [he] at hs
     | changedDiscard => simp [he] at hs
+    | changedAttr => simp [he] at hs
     | backupCopy a b' => simp [he] at hs
     | hcalc => simp [he] at hs
     | labelsWrite => simp [he] at hs
@@ -947,6 +962,12 @@ theorem stepEv_backup {T : Tables} {cx : Ctx} {opt : Bool} {c : Cfg} {e : Ev} (h
     · rfl
     · split <;> rfl
   | changedDiscard => simp only [stepEv]; split <;> rfl
+  | changedAttr =>
+    simp only [stepEv]
+    split
+    · rfl
+    · rfl
+    · split <;> rfl
   | changedNone => simp [stepEv, Res.cfg]
   | changedRead => simp only [stepEv]; split <;> rfl
   | backupRead => simp only [stepEv]; split <;> rfl
